@@ -55,6 +55,98 @@ type tcase struct {
 	BaseN int    `json:"base_n,omitempty"`
 	ML    bool   `json:"ml,omitempty"`  // the chain is written on a new line (`recv` newline `|@(arg)f`)
 	Cls   string `json:"cls,omitempty"` // "" = elements are E (r/comb are props of the prototype), "EM" = resolved through the prototype's _missing
+	// Kind "again": the chain (kind Base) is written once inside a function and evaluated for each receiver of Seq in turn
+	Base string  `json:"base,omitempty"`
+	Seq  [][]int `json:"seq,omitempty"`
+}
+
+func (t tcase) sub(i int) tcase {
+	return tcase{Kind: t.Base, Main: t.Main, Add: t.Add, Form: t.Form, Elems: t.Seq[i], Arg: t.Arg}
+}
+
+func againSrc(t tcase) string {
+	ch := t.Add + t.Main
+	arg := ""
+	if t.Arg != "" {
+		arg = "(" + t.Arg + ")"
+	}
+	prop, lit, v := "r", "{|e| e.r}", "^fr"
+	if t.Base == "reduce" {
+		prop, lit, v = "comb", "{|acc, e| acc.comb(e)}", "^fc"
+	}
+	callee := map[string]string{"property": prop, "literal": lit, "variable": v}[t.Form]
+	var calls []string
+	for _, es := range t.Seq {
+		parts := make([]string, len(es))
+		for i, e := range es {
+			parts[i] = elemSrc(e, "")
+		}
+		recv := "[" + strings.Join(parts, ", ") + "]"
+		if t.Base == "scalar" {
+			recv = "(" + parts[0] + ")"
+		}
+		calls = append(calls, "nil.try.{|u| f("+recv+")}.A")
+	}
+	return "f := {|xs| xs" + ch + arg + callee + "}\n[" + strings.Join(calls, ", ") + "]"
+}
+
+func againModel(t tcase) outcome {
+	var out strings.Builder
+	var parts []string
+	for i := range t.Seq {
+		m := model(t.sub(i))
+		out.WriteString(m.out)
+		if m.errK != "" {
+			parts = append(parts, "[nil, ["+m.errK+": "+m.errM+"]]")
+		} else {
+			parts = append(parts, "["+m.val+", nil]")
+		}
+	}
+	return outcome{out: out.String(), val: "[" + strings.Join(parts, ", ") + "]"}
+}
+
+func genAgain(emit func(tcase)) {
+	lists := [][]int{{11, 21}, {12}, {13, 11}, {0, 11}, {}, {31, 12, 41}}
+	scalars := [][]int{{11}, {12}, {13}, {0}}
+	for _, add := range adds {
+		for _, f := range forms {
+			three := func(base, main string, pool [][]int, arg string) {
+				for a := range pool {
+					for b := range pool {
+						if a == b {
+							continue
+						}
+						emit(tcase{Kind: "again", Base: base, Main: main, Add: add, Form: f, Arg: arg, Seq: [][]int{pool[a], pool[b], pool[a]}})
+					}
+				}
+			}
+			three("scalar", ".", scalars, "")
+			var ls [][]int
+			for _, l := range lists {
+				hasNil := false
+				for _, e := range l {
+					hasNil = hasNil || e == 0
+				}
+				if !(hasNil && add == "~") {
+					ls = append(ls, l)
+				}
+			}
+			three("list", "@", ls, "")
+			three("list", "@", ls, "[]")
+			var rs [][]int
+			for _, l := range lists {
+				hasNil := false
+				for _, e := range l {
+					hasNil = hasNil || e == 0
+				}
+				if !hasNil {
+					rs = append(rs, l)
+				}
+			}
+			three("reduce", "$", rs, "")
+			three("reduce", "$", rs, "E.new(0)")
+		}
+	}
 }
 
 type outcome struct {
@@ -199,6 +291,9 @@ func (t tcase) src() string {
 	}
 	if t.Kind == "hist" {
 		return histSrc(t)
+	}
+	if t.Kind == "again" {
+		return againSrc(t)
 	}
 	if t.Kind == "reuse" {
 		return "rv := " + t.Recv + "\ng := {|e| e}\n[rv" + t.Add + "@{|e| e}, rv@^g, rv" + t.Add2 + "@{|e| e}, rv$([]){|a, e| a + [e]}, rv" + t.Add + "@^g]"
@@ -415,6 +510,8 @@ func gen(thorough bool, emit func(tcase)) {
 		emit(t)
 	})
 	genRest(emit)
+	// one chain expression (one syntax node, inside a function) evaluated for three receivers in turn
+	genAgain(emit)
 	// two chains with the same array as chain argument: every (context, form) pair x base length 0..8 x 1..2 results
 	for _, a1 := range adds {
 		for _, a2 := range adds {
@@ -621,6 +718,8 @@ func judge(c *core.Ctx, t tcase, o panrun.Obs) {
 		want = otherModel(t)
 	case "hist":
 		want = histModel(t)
+	case "again":
+		want = againModel(t)
 	case "reuse":
 		// the same receiver value serves five chains one after the other: each sees all its elements
 		r := otherRecvs[recvIndex(t.Recv)]
@@ -687,7 +786,7 @@ func groupKey(t tcase) string {
 }
 
 func crossForm(c *core.Ctx, t tcase, o panrun.Obs) {
-	if t.Kind == "digest" || t.Kind == "hist" || t.Kind == "reuse" || (t.Kind == "reduce" && t.Add == "&") {
+	if t.Kind == "digest" || t.Kind == "hist" || t.Kind == "reuse" || t.Kind == "again" || (t.Kind == "reduce" && t.Add == "&") {
 		return
 	}
 	k := groupKey(t)
